@@ -47,6 +47,11 @@ def claimLine : List String → Option String
   | ["osu", ch, br, en, bh, osn, ms, ck] => do
     let c : MsgOracleSetUpdatedClaim := { EventNonce := (← en.toNat?), BlockHeight := (← bh.toNat?), OracleSetNonce := (← osn.toNat?), Members := (← listOf memberOf ms), BridgerAddress := (← str br), ChainName := (← str ch) }
     pure (answer c.path c.ChainName (fun k => c.valid k) (← boolOf ck))
+  | ["tgt", raw] => do
+    -- `fxtypes.ParseFxTarget(raw, true)` as `SendToFxExecuted` calls it: routing decision and rendered forms
+    let t := Go.types_ParseFxTarget (← str raw) true
+    let h (x : Str) : String := hex (x.map Char.toNat)
+    pure s!"{if t.isIBC then "ibc" else "local"} {h (Go.types_FxTarget_GetTarget t)} {h t.Prefix} {h t.SourcePort} {h t.SourceChannel} {h (Go.types_FxTarget_String t)}"
   | _ => none
 
 def step (st : Unit) (line : String) : Unit × String :=
